@@ -437,6 +437,8 @@ def run_pipeline(case, n):
                     kw = tgt.keywords
                     outs = [kw["mailboxes"][d] for d in kw["outputs"] if d not in kw["flow_freely"]]
 
+                    obs.setdefault("free", set()).update(d for d in kw["outputs"] if d in kw["flow_freely"])
+
                     def on_next(outs=outs, who=t.name):
                         for om in outs:
                             gate_probe(om, who)
@@ -560,12 +562,17 @@ def op_path(case, comp, n):
 
 
 def path_line(case):
-    """what `dag_rest_bound` should say for this graph: its hypothesis holds on the wired net, the consumer is the only
-    reader of its subscription, the bound along the cheapest path is 2 * sum(max_messages) (one-to-one plugins: lag 1)"""
+    """what `dag_rest_bound` / `dag_lazy_gate` should say for this graph: the path hypothesis holds on the wired net, the
+    consumer is the only reader of its subscription, the bound along the cheapest path is 2 * sum(max_messages)
+    (one-to-one plugins: lag 1); in lazy mode every mailbox is gated except the flow-freely outputs of a divider (as
+    observed on the REAL divider's `flow_freely` argument), in eager mode none"""
     w = wiring(case)
     path = path_mailboxes(case)
     B = 2 * sum(w[m]["cap"] for m in path)
-    return f"ok hyp=1 sole=1 B={B} lagR=0 path={'>'.join(path)} lags={','.join('1' for _ in path[1:])}"
+    lazy = bool(case["lazy"]) and not case.get("workers")
+    gated = sorted(m for m in w if m not in case.get("free", [])) if lazy else []
+    return (f"ok hyp=1 sole=1 B={B} lagR=0 path={'>'.join(path)} lags={','.join('1' for _ in path[1:])} "
+            f"gated={','.join(gated) or '-'}")
 
 
 def is_chain(case):
@@ -884,11 +891,13 @@ def run(ctx):
         if op is None or op in seen:
             continue
         seen.add(op)
-        pcases.append(dict(graph=c["graph"], cap=c["cap"], lazy=c["lazy"], workers=c.get("workers", 0), n=c["n"], op=op))
+        pcases.append(dict(graph=c["graph"], cap=c["cap"], lazy=c["lazy"], workers=c.get("workers", 0), n=c["n"], op=op,
+                           free=sorted(res2[c["i"]][0].get("free", []))))
     ctx.correspond("graph/path-model", pcases, path_line, lambda c: c["op"], None,
                    nontrivial=lambda c, out: True,
                    rule="every distinct (graph, capacities, mode, savers) of pipeline/rest: components of the real processor -> "
-                        "c06's `wire` -> cheapest path; compared: pathOk holds, consumer is sole reader, pathBound, the path",
+                        "c06's `wire` -> cheapest path; compared: pathOk holds, consumer is sole reader, pathBound, the path, the set of "
+                        "mailboxes whose sender satisfies senderOk (hypothesis of dag_lazy_gate)",
                    branch=lambda c, out: f"{c['graph']['shape']}/{'lazy' if c['lazy'] else 'eager'}")
     ctx.note(f"phase pipeline/rest: {time.time() - t0:.1f}s")
     t0 = time.time()
